@@ -14,7 +14,7 @@ from vlib.core import exc_site, fmt_exc
 PROPERTY = "C20"
 LEVEL = "fault_enumeration"
 CLAIM = {
-    "text": "Fault enumeration by runtime monitoring, three monitors: (1) a FileWriter.write/cwrite hook re-reads the output through a fresh descriptor after every write of every streaming writer (invert, mask, downsample, extract_samps/chans/bands, subband, zero-DM, requantize, block/time-series/spectrum writers) for several gulps and requires a complete header, each snapshot extending the previous one and being a prefix of the final file, and a complete file when the call returns; (2) the same calls run in a child under strace and an offline checker audits every write/lseek/dup/ftruncate/rename/mmap syscall (append-only, header in one write, payloads == final file), i.e. crash points between any two syscalls; (3) real crashes: for every k a child process is killed with os._exit right after its k-th write and the surviving file(s) must open with FilReader and hold exactly the first floor(datalen/stride) samples of the uninterrupted result; plus every byte-length truncation of a final file at or after the header. Writers producing more than 1 MiB per product are included; the thorough tier also runs the repository's own test-suite with an append-only contract on every FileWriter.write/cwrite. Rounds 7-8 added: products ending in all-zero blocks judged against their independently known size, the two-pass cleaner on a sub-range, and writers run under a file-size limit that cuts the last block (they must raise, or what they return is complete). Round 9 added: a dedispersed block written with to_file.",
+    "text": "Fault enumeration by runtime monitoring, three monitors: (1) a FileWriter.write/cwrite hook re-reads the output through a fresh descriptor after every write of every streaming writer (invert, mask, downsample, extract_samps/chans/bands, subband, zero-DM, requantize, block/time-series/spectrum writers) for several gulps and requires a complete header, each snapshot extending the previous one and being a prefix of the final file, and a complete file when the call returns; (2) the same calls run in a child under strace and an offline checker audits every write/lseek/dup/ftruncate/rename/mmap syscall (append-only, header in one write, payloads == final file), i.e. crash points between any two syscalls; (3) real crashes: for every k a child process is killed with os._exit right after its k-th write and the surviving file(s) must open with FilReader and hold exactly the first floor(datalen/stride) samples of the uninterrupted result; plus every byte-length truncation of a final file at or after the header. Writers producing more than 1 MiB per product are included; the thorough tier also runs the repository's own test-suite with an append-only contract on every FileWriter.write/cwrite. Rounds 7-8 added: products ending in all-zero blocks judged against their independently known size, the two-pass cleaner on a sub-range, and writers run under a file-size limit that cuts the last block (they must raise, or what they return is complete). Round 9 added: a dedispersed block written with to_file. Round 11 added: 260 products of one extract_chans batch open side by side, snapshots after every write.",
     "design_ref": "DESIGN.md section 3 (C20), 2.4",
     "note": "Crash model = process death after a completed syscall (no power loss, no torn single write). Trusted: strace -f -y output format, vlib/sigfile.py parser. Truncated files are read with read_block (the reader refuses a trailing partial sample only in read_plan).",
     "technique": "runtime monitoring with fault injection: snapshot-after-every-write hook, strace write-log audit, kill-after-k-th-write crash enumeration, exhaustive byte-length truncation",
@@ -37,7 +37,7 @@ def REQUIRED(tier):
 
 def _required(tier):
     return ["snapshots_taken", "snapshot_prefix_checks", "kill_children", "kill:died_at_point", "kill:survivor_opened", "truncations", "strace_runs", "strace_write_events",
-            "writers_covered", "snapshot:preexisting_output", "kill:preexisting_output", "snapshot:product_over_1MiB", "kill:unwound_by_exception", "strace:header_over_512_bytes_confirmed", "rewrites_of_an_opened_name", "rewrite:equal_length_products", "snapshot:product_ending_in_zero_blocks", "diskfull:writer_raised", "truncations:tim_product"]
+            "writers_covered", "snapshot:preexisting_output", "kill:preexisting_output", "snapshot:product_over_1MiB", "kill:unwound_by_exception", "strace:header_over_512_bytes_confirmed", "rewrites_of_an_opened_name", "rewrite:equal_length_products", "snapshot:product_ending_in_zero_blocks", "diskfull:writer_raised", "truncations:tim_product", "snapshot:hundreds_of_products_open_side_by_side"]
 
 
 def EXHAUSTIVE(tier):
@@ -52,6 +52,8 @@ def cases(tier, seed):
         yield {"kind": "snapshot", "writer": w, "gulp": 5, "pre": True}   # re-run over an existing, longer output of the same name
     for w in c20_scen.ZERO_TAIL_WRITERS:
         yield {"kind": "snapshot", "writer": w, "gulp": 512}
+    for w in c20_scen.MANY_WRITERS:
+        yield {"kind": "snapshot", "writer": w, "gulp": 10}
     for w in c20_scen.BIG_WRITERS:
         yield {"kind": "snapshot", "writer": w, "gulp": 65536}
         for k in (1, 3, 5):
@@ -127,6 +129,8 @@ def _snapshot(case, ctx):
     ctx.count("writers_covered")
     if case["writer"] in c20_scen.BIG_WRITERS:
         ctx.count("snapshot:product_over_1MiB")
+    if case["writer"] in c20_scen.MANY_WRITERS:
+        ctx.count("snapshot:hundreds_of_products_open_side_by_side")
     try:
         outs = c20_scen.run_writer(case["writer"], d, case["gulp"], preexisting=bool(case.get("pre")))
         if case.get("pre"):
